@@ -221,10 +221,13 @@ Go(M, c0, sym, ph, evs, fuel, dn, cons, raised) ==
                                                            s.greedy, s.hasels, s.eb), K1)], sym, "arr", evs, fuel - 1, dn, cons, raised)
 
 \* all outcomes of symbol sym arriving in configuration c
-MaxDrop == 3
+MaxDrop == 2
+\* the drop variants only matter when an error is raised while the symbol is processed
 LangByte(M, c, sym) ==
-  Go(M, c, sym, "arr", <<>>, FUELL, -1, FALSE, FALSE)
-  \cup {o \in UNION {Go(M, c, sym, "arr", <<>>, FUELL, n, FALSE, FALSE) : n \in 0..MaxDrop} : o[3].raised}
+  LET base == Go(M, c, sym, "arr", <<>>, FUELL, -1, FALSE, FALSE) IN
+  IF \E o \in base : o[3].raised
+  THEN base \cup {o \in UNION {Go(M, c, sym, "arr", <<>>, FUELL, n, FALSE, FALSE) : n \in 0..MaxDrop} : o[3].raised}
+  ELSE base
 
 \* <parser>_start: everything that needs no input, with the same timing slack
 LangStart(M, body) == Go(M, Cfg(<<FS(body)>>, InitStore(M), "run", ""), -1, "aft", <<>>, FUELL, -1, FALSE, FALSE)
